@@ -119,8 +119,11 @@ class PhaseShifter(Component):
         return self.phi
 
     def get_unitary(self, n_modes: int) -> np.ndarray:  # noqa: D102
+        phi = float(self._phi)
+        if not np.isfinite(phi):
+            raise ValueError("Phase shift must be a finite number.")
         unitary = np.identity(n_modes, dtype=complex)
-        unitary[self.mode, self.mode] = np.exp(1j * float(self._phi))
+        unitary[self.mode, self.mode] = np.exp(1j * phi)
         return unitary
 
 
